@@ -146,7 +146,7 @@ fn main() {
                     break;
                 }
                 // an even share of the remaining wall-clock budget for every composition still to run
-                let share = (left / (es.len() - k) as f64).max(0.5);
+                let share = (left / (es.len() - k) as f64).max(3.0);
                 let bc = runner::BatchCfg { prop, base_seed: seed, runs: per, threads, thorough, profile: profile.clone(), max_secs: share };
                 let out = (e.batch)(&bc);
                 let stop = out.violation.is_some();
@@ -217,7 +217,7 @@ fn main() {
                 if left <= 0.0 {
                     break;
                 }
-                let share = (left / (scs.len() - k) as f64).max(0.5);
+                let share = (left / (scs.len() - k) as f64).max(3.0);
                 let bc = runner::BatchCfg { prop, base_seed: seed, runs: per, threads, thorough, profile: profile.clone(), max_secs: share };
                 let out = (sc.batch)(&bc);
                 let stop = out.violation.is_some();
